@@ -16,7 +16,10 @@ from vf.gen import qmodels as G
 RULE = ("case = (generated quantized-model description with weight-bearing "
         "layers, fixed-point / constant-alpha / auto / auto_po2 / po2 / relu_po2 "
         "/ binary / ternary weight quantizers, QBatchNormalization in fusable "
-        "and non-fusable placements, random weights) x (generated step list over "
+        "and non-fusable placements, random weights, optionally whole tensors "
+        "in a degenerate / untrained state: initializer value, zeros, ones, a "
+        "constant, one non-zero element - per tensor, per layer, all batch-norm "
+        "statistics, or the whole freshly built model) x (generated step list over "
         "export, predict, freeze, freeze_q). Non-trivial = at least one export "
         "step ran on a model with at least one non-None weight quantizer; "
         "distinct by hash of (description, steps).")
@@ -48,6 +51,12 @@ ASSUMPTIONS = [
     "folded layers (QConv2DBatchnorm / QDepthwiseConv2DBatchnorm) are "
     "documented as not re-written by the export: checked as 'weights "
     "unchanged, dictionary = quantizer(get_folded_weights())'",
+    "degenerate weight states stay inside the domain of trained / untrained "
+    "models: a moving variance is never filled with a negative value; an "
+    "all-zero beta / moving mean under a quantizer that maps 0 to a non-zero "
+    "code (power of two, binary) is checked like any other value: the fused "
+    "terms use the quantized parameter the batch-norm layer holds afterwards "
+    "(labels bn_fused_zero_param*)",
     "quantized_relu_po2(negative_slope != 0) is not generated as a weight "
     "quantizer (the dictionary has no sign entry for it by design)",
     "pooling layers: the entry must carry pool_area, mult_factor = 1/pool_area "
@@ -64,14 +73,16 @@ REQUIRED_LABELS = {
               "L:QSimpleRNN", "L:QLSTM", "L:QGRU", "L:QScaleShift",
               "L:QSeparableConv1D", "folded_layer", "bn_inverse_quantizer",
               "frozen_export", "canonical", "pool_entry_no_quantizer",
-              "binary_use_01", "frozen_behaviour_checked"],
+              "binary_use_01", "frozen_behaviour_checked", "wfill",
+              "bn_fused_zero_param_q_nonzero"],
     "thorough": ["export", "export2", "predict", "freeze", "di_model", "dd_model",
                  "rel:po2", "rel:relu_po2", "rel:auto_po2",
                  "rel:auto_po2_scale_ne_1", "rel:plain", "bn_fused",
                  "bn_not_fused", "pred_preserved_checked", "idempotence_checked",
                  "bn_inverse_quantizer", "frozen_export", "L:QSimpleRNN",
                  "L:QLSTM", "L:QGRU", "L:QScaleShift", "L:QSeparableConv1D",
-                 "L:QBidirectional", "folded_layer", "canonical", "hyp"],
+                 "L:QBidirectional", "folded_layer", "canonical", "hyp", "wfill",
+                 "wfill:tensors", "wfill:model", "bn_fused_zero_param_q_nonzero"],
 }
 
 _count = {"n": 0}
@@ -445,6 +456,15 @@ def check_bn_fusing(model, conv, bn, entry, bn_prev, labels):
   beta = qv("beta", "beta_quantizer_internal", 0.0)
   mean = qv("moving_mean", "mean_quantizer_internal", 0.0)
   var = qv("moving_variance", "variance_quantizer_internal", 1.0)
+  # untrained / degenerate batch-norm parameters (whole tensor zero) and
+  # quantizers that do not map zero to zero (power of two, binary)
+  zero_nz = False
+  for wname, qd in (("beta", beta), ("moving_mean", mean)):
+    if wname in raw and not np.any(_f64(raw[wname])):
+      labels.add("bn_fused_zero_param")
+      if np.any(qd):
+        zero_nz = True
+        labels.add("bn_fused_zero_param_q_nonzero")
   inv = gamma / np.sqrt(var + float(bn.epsilon))
   got_inv = _f64(entry["bn_inv"])
   ok_mask = np.ones(inv.shape, dtype=bool)
@@ -495,6 +515,8 @@ def check_bn_fusing(model, conv, bn, entry, bn_prev, labels):
     with np.errstate(all="ignore"):
       rel = np.max(np.abs(got - ref) / (np.abs(t1) + np.abs(t2) + np.abs(t3) + 1e-30))
     labels.add("bn_fused")
+    if zero_nz:
+      labels.add("bn_fused_zero_param_q_nonzero_ok")
     labels.add("fused_bias_relerr<=%.0e" % max(1e-9, 10 ** np.ceil(np.log10(rel + 1e-300))))
   return fails
 
@@ -854,6 +876,12 @@ def run_history(case, labels):
   if any(qname(q) == "binary" and getattr(q, "use_01", False)
          for _, _, q in model_weight_quantizers(model)):
     labels.add("binary_use_01")
+  if desc.get("wfill"):
+    labels.add("wfill")
+    labels.add("wfill:model" if "*" in desc["wfill"] else "wfill:tensors")
+    for fl in desc["wfill"].values():
+      for f in fl.values():
+        labels.add("wfill=" + f.split(":")[0])
   state = {"last_pred": None, "last_export": None}
   for k, step in enumerate(case["steps"]):
     if step == "predict":
@@ -919,6 +947,12 @@ def run(ctx):
       desc = draw(G.freeze_chain_strategy())
     else:
       desc = draw(G.model_strategy("c14", rich=not ctx.quick, family=fam))
+    # degenerate / untrained whole-tensor states (zeros, ones, initializer
+    # value, constants) for half of the models
+    if draw(st.booleans()):
+      wf = draw(G.wfill_strategy(desc))
+      if wf:
+        desc = dict(desc, wfill=wf)
     pat = draw(st.sampled_from([
         ["export", "predict", "export"],
         ["predict", "export", "export", "predict"],
@@ -948,6 +982,16 @@ def run(ctx):
       canon.append({"model": d, "steps": ["freeze", "export", "predict", "export"]})
     else:
       canon.append({"model": d, "steps": ["export", "predict", "export"]})
+  # the same models as built (no weight assigned: untrained parameters) and
+  # with the parameters a fresh model starts at zero set to zero
+  zero_start = {"*": {"bias": "zeros", "beta": "zeros", "moving_mean": "zeros"}}
+  fresh = {"*": {w: "init" for ws in G.WEIGHT_SLOTS.values() for w, _ in ws}}
+  for case in list(canon):
+    if case["steps"][0] == "export" and case["model"]["family"] in ("image", "vec"):
+      canon.append({"model": dict(case["model"], wfill=fresh), "steps": ["export", "export"]})
+      if any(ld["cls"] == "QBatchNormalization" for ld in case["model"]["layers"]):
+        canon.append({"model": dict(case["model"], wfill=zero_start),
+                      "steps": ["export", "predict", "export"]})
   for case in ctx.shard(canon):
     for sc, sig, detail in oracle_case(ctx, case, extra_labels=["canonical"]):
       ctx.fail(sc, sig, case, detail)
